@@ -25,7 +25,10 @@ var c11Chars = []string{"a", "b", "c", "k", "s", "K", "S", "x", "e", "/", "=", "
 
 var c11Classes = []string{`[a-c]`, `\d`, `\w`, `\s`, `[^a]`, `.`, `[[:alpha:]]`, `[k-s]`, `[A-Z]`, `\W`, `\S`, `[\x00-\x1f]`, `[^\n]`, `\pL`, `[ks]`, `[a-cx-z]`, `[^a-z]`, `[é-ü]`, `[\x{212A}k]`, `\D`}
 
-var c11Special = []string{`\x{FFFD}`, `\n`, `\t`, `\.`, `\(`, `\x41`, `\x{e9}`, `\Qa.b\E`, `\xff`, `\xc3\x28`, `\x00`, `\\`, `\x{212A}`, `\x{17F}`}
+// (\x{FFFD}, \x{e9} and \xNN >= 0x80 make newRX choose the binaryregexp matcher, which has no
+// prefilter; the raw U+FFFD character keeps the pattern on the regexp path, where it matches one
+// invalid input byte.)
+var c11Special = []string{"\uFFFD", "\uFFFD", "a\uFFFD", "\uFFFDb", `\x{FFFD}`, `\n`, `\t`, `\.`, `\(`, `\x41`, `\x{e9}`, `\Qa.b\E`, `\xff`, `\xc3\x28`, `\x00`, `\\`, `\x{212A}`, `\x{17F}`}
 
 var c11Quant = []string{"?", "*", "+", "{2}", "{0,2}", "{1,3}", "{2,}", "{0,1}", "{1}", "??", "*?", "+?", "{1,2}?"}
 
